@@ -100,14 +100,24 @@ Definition H_irenumber (t : sptz) (shape : vec) (nrs : list pyidx) : res mat :=
 
 Definition absorb_mode (n : Z) : Z := if n =? 0 then 1 else 0.
 
+(* the modes other than the skipped one *)
+Definition others (n ndims : Z) : vec := filter (fun i => negb (i =? n)) (np_arange 0 ndims).
+(* all factors other than the skipped one have one common column count *)
+Definition cols_agree (l : list mat) (n ndims : Z) : bool :=
+  negb (zlen (np_unique (map (fun i => np_ncols (znth [] l i)) (others n ndims))) >? 1).
+
+Definition accept_factors (l : list mat) (n ndims : Z) : res (list mat) :=
+  if (zlen l =? ndims) && ((0 <=? n) && (n <? ndims)) then
+    if forallb (fun i => idx_ok l i) (others n ndims) then (if cols_agree l n ndims then Ok l else Err) else Err
+  else Err.
+
 Definition H_mttkrp_factors (U : kt_or_seq) (n ndims : Z) : res (list mat) :=
   match U with
   | UKt k =>
-      if kt_redistribute_ok k (absorb_mode n) then
-        let fs := kt_factors (kt_redistribute k (absorb_mode n)) in
-        if (zlen fs =? ndims) && ((0 <=? n) && (n <? ndims)) then Ok fs else Err
+      if kt_redistribute_ok k (absorb_mode n)
+      then accept_factors (kt_factors (kt_redistribute k (absorb_mode n))) n ndims
       else Err
-  | USeq l => if (zlen l =? ndims) && ((0 <=? n) && (n <? ndims)) then Ok l else Err
+  | USeq l => accept_factors l n ndims
   end.
 
 (* ---- shape / subscript / value checks ---- *)
